@@ -66,6 +66,8 @@ struct Case {
     solver: SolverCfg,
     /// number of rayon worker threads for the C11 pool sweep (0 = not used)
     pool: usize,
+    /// user-chosen singular value threshold (None = default)
+    eps: Option<f64>,
 }
 
 fn fam_tag(f: &Family) -> &'static str {
@@ -118,7 +120,7 @@ fn wk_parse(v: &Value) -> WKind {
 fn case_json(c: &Case) -> Value {
     json!({"fam": fam_tag(&c.fam), "alpha": c.alpha, "coefs": c.coefs, "n": c.n, "prov": c.prov.name(), "scalar": if c.f32_ {"f32"} else {"f64"}, "par": c.par, "mrhs_api": c.mrhs_api,
            "w": wk_json(&c.w), "level": c.level, "noise_variant": c.noise_variant, "start_mult": c.start_mult,
-           "solver": {"patience": c.solver.patience, "tol": format!("{:?}", c.solver.tol), "stepbound": c.solver.stepbound}, "pool": c.pool})
+           "solver": {"patience": c.solver.patience, "tol": format!("{:?}", c.solver.tol), "stepbound": c.solver.stepbound}, "pool": c.pool, "eps": c.eps})
 }
 fn case_parse(v: &Value) -> Case {
     let fv = |x: &Value| -> Vec<f64> { x.as_array().unwrap().iter().map(|y| y.as_f64().unwrap()).collect() };
@@ -145,6 +147,7 @@ fn case_parse(v: &Value) -> Case {
             stepbound: v["solver"]["stepbound"].as_f64().unwrap(),
         },
         pool: v["pool"].as_u64().unwrap() as usize,
+        eps: v["eps"].as_f64(),
     }
 }
 
@@ -210,7 +213,7 @@ struct Outcome<T: Sc> {
 fn run_fit<T: Sc>(c: &Case, su: &Setup<T>, par: bool, keep_calls: bool) -> Result<Outcome<T>, String> {
     let base = make_t::<T>(&su.spec, c.prov, &su.a0);
     let (model, log) = Recording::wrap(base, true);
-    let problem = prob::build(model, &su.y, su.w.as_ref(), None, su.api, par)?;
+    let problem = prob::build(model, &su.y, su.w.as_ref(), c.eps.map(|e| T::f(e)), su.api, par)?;
     let init_obj = problem.residuals().map(|r| 0.5 * vec_d(&r).norm_squared()).unwrap_or(f64::NAN);
     let before = log.snapshot().len();
     let fit = problem.fit(c.solver.make::<T>());
@@ -328,7 +331,7 @@ fn check_c04<T: Sc>(ctx: &Ctx, c: &Case, su: &Setup<T>, o: &Outcome<T>) {
         ctx.with(|s| s.violate("C04", "coefficients-incoherent", cj(), "FitResult::linear_coefficients differs from the problem's coefficients".into()));
     }
     // coherent state: coefficients optimal for alpha_hat, residuals = W(Y - Phi C)
-    let r = reference::<T>(&su.spec, &alpha_hat, &su.y, su.w.as_ref(), T::EPS, false);
+    let r = reference::<T>(&su.spec, &alpha_hat, &su.y, su.w.as_ref(), c.eps.map(|e| T::f(e).d().abs()).unwrap_or(T::EPS), false);
     let mut findings = vec![];
     let mut g: Gauges = vec![];
     check_c01::<T>(&r, &obs, &mut findings, &mut g);
@@ -348,7 +351,7 @@ fn check_c04<T: Sc>(ctx: &Ctx, c: &Case, su: &Setup<T>, o: &Outcome<T>) {
         ctx.with(|s| s.violate("C04", "objective-increased", cj(), format!("objective {:e} at the result exceeds the objective {:e} at the initial guess", objv, o.initial_objective)));
     }
     // the returned problem is the state of a fresh problem at alpha_hat
-    let fresh = prob::build(make_t::<T>(&su.spec, c.prov, &alpha_hat), &su.y, su.w.as_ref(), None, su.api, false).unwrap();
+    let fresh = prob::build(make_t::<T>(&su.spec, c.prov, &alpha_hat), &su.y, su.w.as_ref(), c.eps.map(|e| T::f(e)), su.api, false).unwrap();
     if observe(fresh.as_ref()) != obs {
         ctx.with(|s| s.violate("C04", "final-state-not-fresh-state", cj(), "the returned problem differs (bitwise) from a freshly built problem at the fitted parameters".into()));
     }
@@ -387,7 +390,7 @@ fn check_c02<T: Sc>(ctx: &Ctx, c: &Case, su: &Setup<T>, o: &Outcome<T>) {
         ctx.with(|s| s.violate("C02", "nonlinear-parameters-not-problem-params", cj(), "FitResult::nonlinear_parameters differs from problem.params()".into()));
     }
     // optimizer-driven history == caller-driven history: replay the recorded parameter sequence by hand
-    let mut p2 = prob::build(make_t::<T>(&su.spec, c.prov, &su.a0), &su.y, su.w.as_ref(), None, su.api, c.par).unwrap();
+    let mut p2 = prob::build(make_t::<T>(&su.spec, c.prov, &su.a0), &su.y, su.w.as_ref(), c.eps.map(|e| T::f(e)), su.api, c.par).unwrap();
     let mut nset = 0;
     for call in &o.calls {
         if let Call::SetParams(b) = call {
@@ -714,7 +717,7 @@ fn c05_cases(thorough: bool, v: &mut dyn FnMut(Case)) {
                                             continue;
                                         }
                                         let coefs: Vec<Vec<f64>> = (0..s).map(|k| cf.iter().enumerate().map(|(j, c)| c * (1.0 + 0.5 * k as f64) + 0.25 * (k * (j + 1)) as f64).collect()).collect();
-                                        v(Case { fam: fam.clone(), alpha: alpha.clone(), coefs, n, prov, f32_, par, mrhs_api: s > 1 || (ti + smi) % 2 == 1, w, level, noise_variant: nv, start_mult: sm.clone(), solver: SolverCfg::default_(), pool: 0 });
+                                        v(Case { fam: fam.clone(), alpha: alpha.clone(), coefs, n, prov, f32_, par, mrhs_api: s > 1 || (ti + smi) % 2 == 1, w, level, noise_variant: nv, start_mult: sm.clone(), solver: SolverCfg::default_(), pool: 0, eps: None });
                                     }
                                 }
                             }
@@ -760,7 +763,7 @@ fn c04_cases(thorough: bool, v: &mut dyn FnMut(Case)) {
                                     continue;
                                 }
                                 let coefs: Vec<Vec<f64>> = (0..s).map(|k| cf.iter().map(|c| c * (1.0 + 0.5 * k as f64)).collect()).collect();
-                                v(Case { fam: fam.clone(), alpha: alpha.clone(), coefs, n: 24, prov, f32_, par, mrhs_api: s > 1, w, level, noise_variant: nv, start_mult: sm.clone(), solver: *solver, pool: 0 });
+                                v(Case { fam: fam.clone(), alpha: alpha.clone(), coefs, n: 24, prov, f32_, par, mrhs_api: s > 1, w, level, noise_variant: nv, start_mult: sm.clone(), solver: *solver, pool: 0, eps: if (si + ci) % 3 == 0 { Some([1e-3, 1e-2, -1e-6][(si + ci) / 3 % 3]) } else { None } });
                             }
                         }
                     }
